@@ -306,6 +306,54 @@ func matchCorpus() []*matchCase {
 	return acc
 }
 
+// matchVolume: arrays wider than the sizes at which an implementation might switch representation (64 bits of a
+// word, a few hundred alternatives): the wanted element sits behind the boundary
+func matchVolume(mode string) []*matchCase {
+	var acc []*matchCase
+	objs := func(n int, at map[int]interface{}) []interface{} {
+		a := make([]interface{}, n)
+		for i := range a {
+			a[i] = map[string]interface{}{"f": float64(i)}
+			if x, have := at[i]; have {
+				a[i] = x
+			}
+		}
+		return a
+	}
+	strs := func(n int) []interface{} {
+		a := make([]interface{}, n)
+		for i := range a {
+			a[i] = fmt.Sprintf("s%d", i)
+		}
+		return a
+	}
+	pat := func(js string) interface{} {
+		var x interface{}
+		must(json.Unmarshal([]byte(js), &x))
+		return x
+	}
+	vol := func(p string, f interface{}, bs map[string]interface{}) {
+		acc = append(acc, &matchCase{Kind: "corpus-volume", P: pat(p), F: f, Bs: bs})
+	}
+	none := func() map[string]interface{} { return map[string]interface{}{} }
+	a1 := map[string]interface{}{"a": 1.0}
+	a2 := map[string]interface{}{"a": 2.0, "want": true}
+	for _, n := range []int{65, 70} {
+		// one element cannot serve two pattern elements, wherever it sits
+		vol(`[{"a":"?x"},{"a":"?y"}]`, objs(n, map[int]interface{}{n - 1: a1}), none())
+		vol(`[{"a":"?x"},{"a":"?y"}]`, objs(n, map[int]interface{}{3: a1, n - 1: a2}), none())
+		vol(`[{"a":"?x","want":true}]`, objs(n, map[int]interface{}{n - 2: a2, 1: a1}), none())
+		vol(`[{"a":"?x"},"?rest"]`, append(objs(n, map[int]interface{}{n - 1: a1}), "tail"), none())
+		vol(`{"l":["?x"]}`, map[string]interface{}{"l": strs(n)}, none())
+		vol(`["?x"]`, strs(n), map[string]interface{}{"?x": fmt.Sprintf("s%d", n-1)})
+	}
+	if mode == "c03" {
+		// more alternatives than a bound on backtracking might allow: all of them, every time
+		vol(`["?x"]`, strs(600), none())
+	}
+	return acc
+}
+
 func must(err error) {
 	if err != nil {
 		panic(err)
@@ -354,6 +402,9 @@ func matchComponent(g *G, n int, opts map[string]string) *Out {
 	}
 	if opts["nocorpus"] == "" {
 		for _, c := range matchCorpus() {
+			emit(c)
+		}
+		for _, c := range matchVolume(opts["mode"]) {
 			emit(c)
 		}
 	}
